@@ -460,6 +460,23 @@ def execute(script, w):
                     crop_ref = g
                     break
             w.probes["crop_reference_value_%d" % min(crop_ref, 4)] += 1
+            # what the library cropped is read off the size of what it returned.  The property is about which pulse an entry belongs to,
+            # so the check is: nothing but vacuum pulses is cut away (no computational pulse is lost; crop_lib <= crop_ref) and entry k
+            # is pulse crop_lib + k.  Cutting fewer vacuum pulses than arrive (possible when an earlier loop is crossed in the very bin
+            # in which a later loop first couples: get_crop_value looks at each loop's own array only) keeps every outcome in place
+            # and is counted, not flagged.
+            if res is not None:
+                if shots is None:
+                    got_len = 0 if res.state is None else res.state.num_modes  # all pulses cropped: no state is returned
+                else:
+                    got_len = None if res.samples is None or np.asarray(res.samples).ndim != 3 else np.asarray(res.samples).shape[2]
+                if got_len is None or not (0 <= T - got_len <= crop_ref):
+                    w.violation("crop", "crop-discards-computational-pulses", {"time_bins": T, "returned_bins": got_len, "vacuum_pulses_before_first_light": crop_ref},
+                                feats)
+                    return
+                if T - got_len < crop_ref:
+                    w.probes["crop_keeps_some_leading_vacuum_pulses"] += 1
+                crop_ref = T - got_len
         if shots is None:
             # oracle 3: space-unrolled state (no measurement applied) equals the reference joint state on the pulse modes
             crop = 0
